@@ -10,7 +10,9 @@ Definition to_hunch (h : chunch) : hunch := match h with CHAbsent => HAbsent | C
 Record orow := ORow { o_name : name; o_score : float; o_bold : bool }.
 Inductive opage := O200 (rows : list orow) (arcs : N) | O400 | OHang | OPanic.
 
-Inductive case := Calc (names lt pt : option (@csvin F64)) (h : chunch) (fuel : N) (observed : opage).
+(** [usable]: the generator built this upload well-formed by construction (complete records, known ids,
+    numeric values, a confidence in 1..100 or none): the property promises a result page for it. *)
+Inductive case := Calc (usable : bool) (names lt pt : option (@csvin F64)) (h : chunch) (fuel : N) (observed : opage).
 
 Definition eps15 : float := 0x1.203af9ee75616p-50%float.     (* 1e-15 *)
 
@@ -25,11 +27,11 @@ Definition multiset_eqb (a b : list orow) : bool :=
   Nat.eqb (length a) (length b) && forallb (fun x => Nat.eqb (count x a) (count x b)) a.
 
 Definition model_page (c : case) : @page F64 :=
-  match c with Calc names lt pt h fuel _ =>
+  match c with Calc _ names lt pt h fuel _ =>
     calculate (N.to_nat fuel) (eps15 : T F64) {| u_names := names; u_lt := lt; u_pt := pt; u_hunch := to_hunch h |} end.
 
 Definition check (c : case) : bool :=
-  match c with Calc _ _ _ _ _ obs =>
+  match c with Calc _ _ _ _ _ _ obs =>
     match model_page c, obs with
     | PResult flags rows arcs, O200 orows oarcs =>
         multiset_eqb (map (fun r : @prow F64 => ORow (render_name (p_name r)) (p_score r : T F64) (nth (p_index r) flags false)) rows) orows
@@ -48,7 +50,7 @@ Fixpoint sorted_desc (l : list orow) : bool :=
   | a :: t => match t with [] => true | b :: _ => negb (PrimFloat.ltb (o_score a) (o_score b)) && sorted_desc t end
   end.
 Definition names_of (c : case) : option (option (list name)) :=
-  match c with Calc names _ _ _ _ _ =>
+  match c with Calc _ names _ _ _ _ _ =>
     match names with
     | None => Some None
     | Some f => match @read_peer_names F64 f with ROk ns => Some (Some ns) | RErr _ => None end
@@ -68,7 +70,7 @@ Definition no_negative (lt : @csvin F64) : bool :=
 
 Definition holds (c : case) : bool :=
   match c with
-  | Calc names (Some lt) (Some pt) h fuel (O200 rows arcs) =>
+  | Calc _ names (Some lt) (Some pt) h fuel (O200 rows arcs) =>
       match names_of c with
       | Some ns =>
           let d := expected_dim ns lt pt in
@@ -84,8 +86,8 @@ Definition holds (c : case) : bool :=
           (if no_negative lt then PrimFloat.leb (fabs (PrimFloat.sub (fold_left PrimFloat.add (map o_score rows) 0%float) 1%float)) 0x1p-30%float else true)
       | None => false
       end
-  | Calc _ _ _ _ _ (O200 _ _) => false             (* a result page without the two required files *)
-  | Calc _ _ _ _ _ O400 => true
-  | Calc _ _ _ h _ OHang => match h with CHVal 0%Z => true | _ => false end     (* confidence 0 is outside 1..100 *)
-  | Calc _ _ _ _ _ OPanic => false
+  | Calc _ _ _ _ _ _ (O200 _ _) => false             (* a result page without the two required files *)
+  | Calc usable _ _ _ _ _ O400 => negb usable      (* a usable upload must not be refused *)
+  | Calc _ _ _ _ h _ OHang => match h with CHVal 0%Z => true | _ => false end     (* confidence 0 is outside 1..100 *)
+  | Calc _ _ _ _ _ _ OPanic => false
   end.
